@@ -278,6 +278,66 @@ func TestVerifTimeoutRecover(t *testing.T) {
 	}
 }
 
+// Independence from earlier requests: after any first request (including ones that timed
+// out, panicked or answered 5xx) a second, quick request gets precisely its own response,
+// through the same chain instance and through a freshly built one.
+func TestVerifGuardsSequential(t *testing.T) {
+	defer vrt.WriteReport()
+	logx.Disable()
+	quick := []behaviour{{}, {"Ba"}, {"H", "W201", "Ba", "Bb"}, {"W404"}, {"P"}, {"W500", "Bx"}, {"H", "Ba"}}
+	n := 0
+	for _, a := range guardBehaviours() {
+		for _, sameChain := range []bool{true, false} {
+			n++
+			if !vrt.Shard(n + 200) {
+				continue
+			}
+			a, sameChain := a, sameChain
+			vrt.Explore(vrt.Options{Name: fmt.Sprintf("guards/sequential/first=[%s]/same-chain=%v", a, sameChain), Bound: 0, AutoAdvance: true}, func(r *vrt.Run) {
+				for _, b := range quick {
+					oa, ob := &gObs{}, &gObs{}
+					cur := a
+					var co *gObs = oa
+					dyn := http.HandlerFunc(func(w http.ResponseWriter, req *http.Request) { cur.handler(co).ServeHTTP(w, req) })
+					chain := TimeoutHandler(gTimeout)(RecoverHandler(dyn))
+					rec1 := newRecWriter()
+					func() {
+						defer func() { recover() }()
+						chain.ServeHTTP(rec1, httptest.NewRequest(http.MethodGet, "/x", nil))
+					}()
+					vrt.Sleep(3 * gTimeout) // let a timed-out first handler run to its end
+					vrt.Settle()
+					cur, co = b, ob
+					if !sameChain {
+						chain = TimeoutHandler(gTimeout)(RecoverHandler(dyn))
+					}
+					rec2 := newRecWriter()
+					var escaped any
+					func() {
+						defer func() { escaped = recover() }()
+						chain.ServeHTTP(rec2, httptest.NewRequest(http.MethodGet, "/x", nil))
+					}()
+					vrt.Settle()
+					want, _ := b.clean()
+					r.Outcome("%s", rec2.summary())
+					if escaped != nil {
+						r.Failf("second request [%s]: panic escaped: %v", b, escaped)
+					}
+					if got := rec2.summary(); got != want {
+						r.Failf("second request [%s] after first [%s]: client got %s, want %s", b, a, got, want)
+					}
+					if len(rec2.writeHeaders) != 1 {
+						r.Failf("second request [%s] after first [%s]: WriteHeader reached the client %d times", b, a, len(rec2.writeHeaders))
+					}
+					if ob.started != 1 {
+						r.Failf("second request [%s]: handler ran %d times", b, ob.started)
+					}
+				}
+			})
+		}
+	}
+}
+
 func TestVerifMaxConns(t *testing.T) {
 	defer vrt.WriteReport()
 	logx.Disable()
